@@ -19,6 +19,7 @@ RULE = (
     "nested queries arriving during a query (scripted read re-enters, as a SIGWINCH handler would). Oracle: for every outermost "
     "call delta(top_usable_row) + returned == final reported row - previously recorded cursor row; a nested call returns 0 and "
     "changes nothing. Non-trivial: extra input containing ESC or digits; movement != 0 with clamping in play; nested call present."
+    ' Plus: typed-ahead input of 1100 (thorough: up to 3000) characters; realistic terminal resizes (xterm semantics) with renders of up to 45 rows on terminals up to 50 rows; queries that fail as documented (typed-ahead input without callback, raising callback) followed by further movement and queries.'
 )
 ASSUMPTIONS = [
     "a complete 'CSI n;m R' inside the extra input is indistinguishable from a report and is excluded from the generator",
